@@ -110,7 +110,8 @@ theorem preNorm_fields (n : Node) : ListRel FieldEqv n.childFields (Iso.preNorm 
     | exact ⟨rfl, (Iso.emptyKV_getD _).symm⟩
     | exact ⟨rfl, (Iso.normList_getD _).symm⟩
 
-/-- checkLocal: the normal forms only remove reasons to fail -/
+/-- checkLocal: the normal forms only remove reasons to fail (`$defs: {}` beside `definitions` ↦ nil; the test on
+    `$vocabulary` is a test of presence, which `normVocab` keeps: `normVocab_isSome`) -/
 theorem checkLocalOk_preNorm (env : Env) (n : Node) (h : checkLocalOk env n = true) :
     checkLocalOk env (Iso.preNorm n) = true := by
   unfold checkLocalOk basicChecksOk at h ⊢
@@ -133,10 +134,9 @@ theorem checkLocalOk_preNorm (env : Env) (n : Node) (h : checkLocalOk env n = tr
       exact depNil_keys_any _ _
     rw [this]
     exact h5
-  · show (!((normKV n.vocabulary).isSome && n.schema != "https://json-schema.org/draft/2020-12/schema")) = true
-    cases e1 : (normKV n.vocabulary).isSome with
-    | false => rfl
-    | true => rw [normKV_isSome _ e1] at h6; exact h6
+  · show (!((normVocab n.vocabulary).isSome && n.schema != "https://json-schema.org/draft/2020-12/schema")) = true
+    rw [normVocab_isSome]
+    exact h6
   · show (((Iso.emptyKV n.patternProperties).getD []).all fun x => env.reOk x.1) = true
     rw [Iso.emptyKV_getD]
     exact h8
